@@ -157,7 +157,7 @@ func (p *party) OnMsg(msgBytes []byte, from uint16, broadcast bool) {
 	}
 
 	key := msg.GetFrom().KeyInt()
-	if key == nil || key.Cmp(big.NewInt(int64(math.MaxUint16))) >= 0 {
+	if key == nil || key.Cmp(big.NewInt(int64(math.MaxUint16))) > 0 {
 		p.logger.Warnf("Message received from invalid key: %v", key)
 		return
 	}
